@@ -1,24 +1,69 @@
 #!/usr/bin/env python3
-"""mkmut.py <name> <props> <file> <old> <new> [<file2> <old2> <new2> ...]: create mutants/<name>.diff (unified diff against /repo HEAD's working tree)
-by exact string replacement; used to build the sensitivity suite (tools/selftest_mutants.sh)."""
-import sys, os, subprocess, tempfile, shutil
-name, props = sys.argv[1], sys.argv[2]
-triples = sys.argv[3:]
-d = tempfile.mkdtemp(prefix="mkmut")
-try:
-    shutil.copytree("/repo/src", d + "/a/src")
-    shutil.copytree("/repo/src", d + "/b/src")
-    for i in range(0, len(triples), 3):
-        f, old, new = triples[i:i + 3]
-        p = d + "/b/" + f
-        s = open(p).read()
-        old = old.encode().decode('unicode_escape'); new = new.encode().decode('unicode_escape')
-        assert s.count(old) == 1, (f, old, s.count(old))
-        open(p, "w").write(s.replace(old, new))
-    out = subprocess.run(["diff", "-ru", "a/src", "b/src"], cwd=d, capture_output=True, text=True).stdout
-    assert out
-    root = os.path.dirname(os.path.dirname(os.path.abspath(__file__)))
-    open(os.path.join(root, "mutants", name + ".diff"), "w").write("# breaks: %s\n" % props + out)
-    print("wrote mutants/%s.diff" % name)
-finally:
-    shutil.rmtree(d)
+"""mkmut.py: (re)creates mutants/*.diff — the sensitivity suite — from the table below by exact string replacement on
+/repo's working tree. Each mutant breaks the property named in its first line while compiling."""
+import os, shutil, subprocess, sys, tempfile
+ROOT = os.path.dirname(os.path.dirname(os.path.abspath(__file__)))
+M = [
+ # name, property, file, old, new
+ ("C01_a_log_mtime_not_compared", "C01", "src/graph.cc", "      if (most_recent_input && entry->mtime < most_recent_input->mtime()) {", "      if (false && most_recent_input && entry->mtime < most_recent_input->mtime()) {"),
+ ("C01_b_record_end_time", "C01", "src/build.cc", "  if (!config_.dry_run) {\n    const bool restat = edge->GetBindingBool(\"restat\");\n    const bool generator = edge->GetBindingBool(\"generator\");", "  if (!config_.dry_run) {\n    const bool restat = true;\n    const bool generator = edge->GetBindingBool(\"generator\");"),
+ ("C01_c_cleannode_ignores_deps_missing", "C01", "src/build.cc", "    if ((*oe)->deps_missing_)\n      continue;\n", ""),
+ ("C02_d_phony_mtime_not_propagated", "C02", "src/graph.cc", "    output->UpdatePhonyMtime(most_recent_input->mtime());", "    (void)output;"),
+ ("C03_a_order_only_dirties", "C03", "src/graph.cc", "    if (!edge->is_order_only(i - edge->inputs_.cbegin())) {", "    if (true) {"),
+ ("C03_c_generator_compares_hash", "C03", "src/graph.cc", "      IF_FIRSTRUN (!generator_ && commandHash_() != entry->command_hash) {", "      IF_FIRSTRUN (commandHash_() != entry->command_hash) {"),
+ ("C04_b_failed_edge_outputs_ready", "C04", "src/build.cc", "  if (result != kEdgeSucceeded)\n    return true;\n\n  if (directly_wanted)", "  if (result != kEdgeSucceeded && !directly_wanted)\n    return true;\n\n  if (directly_wanted)"),
+ ("C04_d_no_makedirs_for_depfile", "C04", "src/build.cc", "  if (!depfile.empty() && !disk_interface_->MakeDirs(depfile))\n    return false;", "  (void)depfile;"),
+ ("C05_b_failure_budget_never_decremented", "C05", "src/build.cc", "            failures_allowed--;", "            (void)failures_allowed;"),
+ ("C06_b_pool_off_by_one", "C06", "src/state.cc", "    if (current_use_ + edge->weight() > depth_)", "    if (current_use_ + edge->weight() > depth_ + 1)"),
+ ("C07_a_cleanup_keeps_outputs", "C07", "src/build.cc", "        if (!depfile.empty() || (*o)->mtime() != new_mtime)\n          disk_interface_->RemoveFile((*o)->path());", "        if (!depfile.empty() && (*o)->mtime() != new_mtime)\n          disk_interface_->RemoveFile((*o)->path());"),
+ ("C08_b_first_wins", "C08", "src/build_log.cc", "    if (i != entries_.end()) {\n      entry = i->second.get();\n    } else {\n      entry = new LogEntry(std::move(output));", "    if (i != entries_.end()) {\n      ++total_entry_count;\n      continue;\n    } else {\n      entry = new LogEntry(std::move(output));"),
+ ("C08_c_recompact_inverted", "C08", "src/build_log.cc", "    if (user.IsPathDead(pair.first)) {\n      dead_outputs.push_back(pair.first);", "    if (!user.IsPathDead(pair.first)) {\n      dead_outputs.push_back(pair.first);"),
+ ("C09_b_truncate_off_by_4", "C09", "src/deps_log.cc", "    fclose(f);\n\n    if (!Truncate(path, offset, err))\n      return LOAD_ERROR;", "    fclose(f);\n\n    if (!Truncate(path, offset + 4, err))\n      return LOAD_ERROR;"),
+ ("C09_c_first_record_wins", "C09", "src/deps_log.cc", "  bool delete_old = deps_[out_id] != NULL;\n  if (delete_old)\n    delete deps_[out_id];\n  deps_[out_id] = deps;\n  return delete_old;", "  bool delete_old = deps_[out_id] != NULL;\n  if (delete_old) {\n    delete deps;\n    return true;\n  }\n  deps_[out_id] = deps;\n  return delete_old;"),
+ ("C09_d_recompact_keeps_dead", "C09", "src/deps_log.cc", "    if (!IsDepsEntryLiveFor(nodes_[old_id]))\n      continue;", "    if (!IsDepsEntryLiveFor(nodes_[old_id]) && deps->node_count == 0)\n      continue;"),
+ ("C10_a_deps_valid_when_output_newer", "C10", "src/graph.cc", "  if (output->mtime() > deps->mtime) {\n    explanations_.Record(output,\n                         \"stored deps info out of date for '%s' (%\" PRId64\n                         \" vs %\" PRId64 \")\",\n                         output->path().c_str(), deps->mtime, output->mtime());\n    return std::nullopt;\n  }", "  if (false) {\n    return std::nullopt;\n  }"),
+ ("C10_c_extractdeps_drops_last", "C10", "src/build.cc", "    deps_nodes->reserve(deps.ins_.size());\n    for (vector<StringPiece>::iterator i = deps.ins_.begin();\n         i != deps.ins_.end(); ++i) {", "    deps_nodes->reserve(deps.ins_.size());\n    if (deps.ins_.size() > 1) deps.ins_.pop_back();\n    for (vector<StringPiece>::iterator i = deps.ins_.begin();\n         i != deps.ins_.end(); ++i) {"),
+ ("C11_c_unused_entry_check_removed", "C11", "src/dyndep.cc", None, None),
+ ("C12_b_subninja_shares_scope", "C12", "src/manifest_parser.cc", "  if (new_scope) {\n    subparser_->env_ = new BindingEnv(env_);\n  } else {", "  if (false) {\n    subparser_->env_ = new BindingEnv(env_);\n  } else {"),
+ ("C12_e_duplicate_output_accepted", "C12", "src/state.cc", None, None),
+ ("C14_a_component_count_not_decremented", "C14", "src/util.cc", "            // Move back to start of previous component.\n            --component_count;", "            // Move back to start of previous component."),
+ ("C14_b_trailing_slash_kept", "C14", "src/util.cc", "  if (dst > dst_start && IsPathSeparator(dst[-1]))\n    dst--;", "  (void)dst_start;"),
+ ("C16_a_quote_escape_broken", "C16", "src/util.cc", None, None),
+ ("C16_c_rspfile_removed_on_failure", "C16", "src/build.cc", "  // The rest of this function only applies to successful commands.\n  if (!result.success()) {\n    return plan_.EdgeFinished(edge, Plan::kEdgeFailed, err);\n  }", "  // The rest of this function only applies to successful commands.\n  if (!result.success()) {\n    disk_interface_->RemoveFile(edge->GetUnescapedRspfile());\n    return plan_.EdgeFinished(edge, Plan::kEdgeFailed, err);\n  }"),
+ ("C17_a_verifydag_disabled", "C17", "src/graph.cc", "  // If we have no temporary mark on the edge then we do not yet have a cycle.\n  if (edge->mark_ != Edge::VisitInStack)\n    return true;", "  // If we have no temporary mark on the edge then we do not yet have a cycle.\n  if (edge->mark_ != Edge::VisitInStack || stack->size() > 2)\n    return true;"),
+ ("C18_a_generator_not_exempt", "C18", "src/clean.cc", "    if (!generator && (*e)->GetBindingBool(\"generator\"))\n      continue;\n    for", "    for"),
+ ("C18_c_depfile_not_removed", "C18", "src/clean.cc", "  string depfile = edge->GetUnescapedDepfile();\n  if (!depfile.empty())\n    Remove(depfile);", "  string depfile = edge->GetUnescapedDepfile();\n  (void)depfile;"),
+ ("C19_c_json_control_chars_unescaped", "C19", "src/json.cc", None, None),
+ ("C20_d_failed_line_omitted", "C20", "src/status_printer.cc", "        printer_.PrintOnNewLine(failed + outputs + \"\\n\");", "        printer_.PrintOnNewLine(outputs + \"\\n\");"),
+ ("C20_b_removed_from_plan_not_reported", "C20", "src/build.cc", "          if (builder_)\n            builder_->status_->EdgeRemovedFromPlan(*oe);", "          (void)builder_;"),
+ ("C15_c_dedupe_removed", "C15", "src/depfile_parser.cc", "      if (pos == ins_.end()) {\n        if (is_dependency) {", "      if (true) {\n        if (is_dependency) {"),
+ ("C13_a_clparser_oob", "C13", "src/clparser.cc", None, None),
+]
+
+
+def main():
+    os.makedirs(os.path.join(ROOT, "mutants"), exist_ok=True)
+    made = 0
+    for name, prop, f, old, new in M:
+        if old is None:
+            continue
+        d = tempfile.mkdtemp(prefix="mkmut")
+        try:
+            shutil.copytree("/repo/src", d + "/a/src")
+            shutil.copytree("/repo/src", d + "/b/src")
+            p = d + "/b/" + f
+            s = open(p).read()
+            if s.count(old) != 1:
+                print("SKIP %s: pattern occurs %d times in %s" % (name, s.count(old), f))
+                continue
+            open(p, "w").write(s.replace(old, new))
+            out = subprocess.run(["diff", "-ru", "a/src", "b/src"], cwd=d, capture_output=True, text=True).stdout
+            open(os.path.join(ROOT, "mutants", name + ".diff"), "w").write("# breaks: %s\n" % prop + out)
+            made += 1
+        finally:
+            shutil.rmtree(d)
+    print("wrote %d mutants" % made)
+
+
+if __name__ == "__main__":
+    main()
